@@ -133,6 +133,9 @@ def scan_trusted(lines):
         m = re.search(r"\buninterp\s+spec\s+fn\s+(\w+)", code)
         if m:
             out.append("uninterpreted spec fn %s" % m.group(1))
+        m = re.search(r"\baxiom\s+fn\s+(\w+)", code)
+        if m:
+            out.append("axiom %s" % m.group(1))
         if re.search(r"\bglobal\s+size_of\b", code):
             out.append(code.strip())
     return out, bad
